@@ -78,7 +78,9 @@ def gen_doc(rng):
     tabbed = level > 0 and rng.random() < 0.4
     body = "\n".join((pad + l) if (l or tabbed) else l for l in lines)
     ending = rng.choice(["\n" + pad, "\n", ""])
-    doc = ("\n" if rng.random() < 0.8 else "") + body + ending
+    # what follows the opening quotes: a newline, nothing, or a whitespace-only first line (left behind by an earlier conversion)
+    lead = rng.choice(["\n", "\n", "\n", "", pad + "\n" if pad else "\n", "  \n"])
+    doc = lead + body + ending
     return {"doc": doc, "style": style, "level": level, "header_lines": [l for l in header if l],
             "footer_lines": [l.strip() for l in footer if l.strip()], "params": [p[0] for p in params],
             "has_footer": bool(footer), "footer_kind": footer[0] if footer else None, "ending": ending, "tabbed_blanks": tabbed}
@@ -120,6 +122,8 @@ def impl_case(case):
             with contextlib.redirect_stderr(io.StringIO()):
                 ir = cdd.function.parse.function(fun)
                 conv[tgt] = cdd.docstring.emit.docstring(ir, docstring_format=tgt)
+                # the same at the indentation of a function body (what doctrans and the function emitter ask for)
+                conv[tgt + "@1"] = cdd.docstring.emit.docstring(cdd.function.parse.function(fun), docstring_format=tgt, indent_level=1)
             if tgt == "rest":
                 res["ir_params"] = {k: [v.get("typ"), repr(v.get("default")) if "default" in v else None]
                                     for k, v in ir["params"].items()}
@@ -187,7 +191,7 @@ def worker(batch):
             out["conv_err"] += 1
             out["items"].append({"cls": "C15/convert-raises/%s/%s" % (c["style"], conv["error"].split(":")[0]),
                                  "clause": "conversion raised", "case": c, "detail": conv["error"]})
-        for tgt in STYLES:
+        for tgt in [t_ for s_ in STYLES for t_ in (s_, s_ + "@1")]:
             if tgt not in conv:
                 continue
             ol = [l.strip() for l in conv[tgt].split("\n")]
